@@ -86,7 +86,7 @@ Proof.
   intros Hf. unfold walk_top. destruct (node_table w top) as [es|] eqn:Ht.
   - destruct (walk_ok_all w pins fuel top 1 es (mkW [] [(top, [])])) as [out [st [E Hok]]].
     { pose proof (unvisited_le w (mkW [] [(top, [])])). lia. }
-    exists out, st. split; [exact E|]. destruct Hok as [M N L V S]. intros q. split.
+    exists out, st. split; [exact E|]. destruct Hok as [M N L V S _ _ _ _ _ _]. intros q. split.
     + apply (S (reachP w pins top)).
       * intros e Ie. apply rp_one. exists es, e. auto.
       * intros x y. apply reachP_trans_step.
